@@ -118,7 +118,10 @@ func checkC03(c *hx.Checker) {
 				addCase(op, binaryFill(main, sa, 0), binaryFill(main, sb, 5), "op", !ref.ShapeEq(sa, sb))
 			}
 		}
-		for _, lp := range [][2][]int{{{8, 1, 6, 1}, {7, 1, 5}}, {{33}, {4, 1}}, {{2, 3, 4, 5}, {5}}, {{1, 64}, {64, 1}}} {
+		// larger operands, among them element counts just above powers of two that are no multiple of 2, 4 or 8
+		// (kernels that split the work into blocks)
+		for _, lp := range [][2][]int{{{8, 1, 6, 1}, {7, 1, 5}}, {{33}, {4, 1}}, {{2, 3, 4, 5}, {5}}, {{1, 64}, {64, 1}},
+			{{1025}, {1025}}, {{1027}, {1}}, {{}, {1029}}, {{1, 205}, {5, 1}}, {{4099}, {4099}}, {{3, 1367}, {1367}}, {{32771}, {32771}}, {{65539}, {1}}, {{7, 1, 9363}, {1, 1, 9363}}} {
 			addCase(op, binaryFill(main, lp[0], 1), binaryFill(main, lp[1], 4), "op", true, "large")
 		}
 		for _, dt := range gateDTs(op, 0) {
@@ -185,6 +188,53 @@ func checkC03(c *hx.Checker) {
 						oc: &hx.OpCase{Op: op, Inputs: tjs(self, self), NOut: 1, Route: rt}, dom: dom, exp: exps, cmp: hx.Bits})
 				}
 			}
+			// one special value as a single-element operand (shape (1) and rank 0) against the whole alphabet,
+			// on either side (kernels with a dedicated scalar-operand path)
+			for j := 0; j < n; j++ {
+				for _, one := range [][]int{{1}, {}} {
+					single := &ref.T{DT: dt, Shape: one, V: []uint64{alpha[j]}}
+					// A = alphabet, B = single
+					va := append([]uint64{}, alpha...)
+					extra := []string{"special-values", "single-operand"}
+					skip := false
+					if op == "Div" && dt.IsInt() {
+						if alpha[j] == 0 {
+							skip = true
+						}
+						if dt.IsSigned() && int64(alpha[j]) == -1 {
+							va = va[:0]
+							for _, x := range alpha {
+								if int64(x) != int64(-1)<<(uint(dt.Bits())-1) {
+									va = append(va, x)
+								}
+							}
+						}
+					}
+					if op == "Div" && dt.IsFloat() && ref.DecF(dt, alpha[j]) == 0 {
+						extra = append(extra, "float-div-by-zero")
+					}
+					if !skip {
+						addCase(op, &ref.T{DT: dt, Shape: []int{len(va)}, V: va}, single, "op", true, extra...)
+					}
+					// A = single, B = alphabet (divisors: zero and the MIN/-1 combination removed)
+					vb := append([]uint64{}, alpha...)
+					if op == "Div" {
+						vb = vb[:0]
+						for _, x := range alpha {
+							if dt.IsInt() && (x == 0 || (dt.IsSigned() && int64(x) == -1 && int64(alpha[j]) == int64(-1)<<(uint(dt.Bits())-1))) {
+								continue
+							}
+							if dt.IsFloat() && ref.DecF(dt, x) == 0 {
+								continue
+							}
+							vb = append(vb, x)
+						}
+					}
+					if len(vb) > 0 {
+						addCase(op, single, &ref.T{DT: dt, Shape: []int{len(vb)}, V: vb}, "op", true, "special-values", "single-operand")
+					}
+				}
+			}
 			if len(za) > 0 {
 				addCase(op, &ref.T{DT: dt, Shape: []int{len(za)}, V: za}, &ref.T{DT: dt, Shape: []int{len(zb)}, V: zb}, "op", true, "special-values", "float-div-by-zero")
 			}
@@ -194,4 +244,5 @@ func checkC03(c *hx.Checker) {
 		}
 	}
 	runOpJobs(c, jobs)
+	runReuseJobs(c, jobs)
 }
